@@ -21,6 +21,7 @@ pub fn dispatch(line: &str) -> String {
         "scan" => lang::scan(rest),
         "parse" => lang::parse(rest),
         "pexpr" => lang::pexpr(rest),
+        "pprog" => lang::pprog(rest),
         "compile" => lang::compile(rest),
         "eval" => lang::eval(rest),
         "vmrun" => lang::vmrun(rest),
